@@ -105,7 +105,7 @@ def build(scratch, members=None, extra_members=()):
             if not os.path.exists(target):
                 raise OverlayError(f"anchored file {crate}/{rel} no longer exists")
             feat = 'feature = "enable"' if crate == "fastrace" else 'feature = "verif-enable"'
-            _append(target, f'\n#[cfg(all(kani, {feat}))]\n#[path = "{hpath}"]\nmod verif_harness;\n')
+            _append(target, f'\n#[cfg(all(kani, {feat}))]\n#[path = "{hpath}"]\npub(crate) mod verif_harness;\n')
 
     # fastrace/src/lib.rs: thread_local model + helper API (before the first `mod` item)
     lib = os.path.join(scratch, "fastrace", "src", "lib.rs")
